@@ -1202,6 +1202,7 @@ lys_compile_pattern_chblocks_xmlschema2perl(const struct ly_ctx *ctx, const char
 
     size_t idx, idx2, start, end, brack;
     char *perl_regex, *ptr;
+    ly_bool escaped;
 
     perl_regex = *regex;
 
@@ -1237,11 +1238,15 @@ lys_compile_pattern_chblocks_xmlschema2perl(const struct ly_ctx *ctx, const char
         }
 
         /* make the space in the string and replace the block (but we cannot include brackets if it was already enclosed in them) */
-        for (idx2 = 0, brack = 0; idx2 < start; ++idx2) {
-            if ((perl_regex[idx2] == '[') && (!idx2 || (perl_regex[idx2 - 1] != '\\'))) {
+        for (idx2 = 0, brack = 0, escaped = 0; idx2 < start; ++idx2) {
+            if (escaped) {
+                /* escaped character, a backslash escapes exactly the next character */
+                escaped = 0;
+            } else if (perl_regex[idx2] == '\\') {
+                escaped = 1;
+            } else if (perl_regex[idx2] == '[') {
                 ++brack;
-            }
-            if ((perl_regex[idx2] == ']') && (!idx2 || (perl_regex[idx2 - 1] != '\\'))) {
+            } else if (perl_regex[idx2] == ']') {
                 --brack;
             }
         }
